@@ -7,6 +7,7 @@ import json
 import numpy as np
 
 from harness.common import bitstr, rowsstr, exc_class, coq_bits, coq_list
+from harness import c09_extra
 
 LET = 'IXYZ'
 
@@ -33,8 +34,13 @@ def run(ctx):
     rng = ctx.rng
     ctx.rule = ('exhaustive over all Pauli strings/pairs for n<=%d, random to n=%d; ipauli whole sequences for all '
                 '(n,lo,hi) n<=%d; pack/unpack every length 0..130 and random longer; malformed stream counted '
-                'separately. nontrivial = distinct input containing Y and at least two distinct letters'
-                % (ctx.pick(3, 4), ctx.pick(120, 300), ctx.pick(5, 6)))
+                'separately. Usage patterns: ipauli/ibsf for all (n,lo,hi) n<=%d consumed streamed / collected before '
+                'use / two live iterators interleaved / abandoned and restarted / yielded arrays overwritten by the '
+                'consumer; %d random call histories over every public function (call, overwrite result in place, '
+                'call again with equal fresh arguments, overwrite arguments in place, call again with the same '
+                'objects, look again at results kept across later calls), every answer compared with the model. '
+                'nontrivial = distinct input containing Y and at least two distinct letters'
+                % (ctx.pick(3, 4), ctx.pick(120, 300), ctx.pick(5, 6), ctx.pick(5, 6), ctx.pick(8000, 80000)))
     ctx.props_obligations()
 
     req, exp = [], []  # model requests and implementation answers (canonical)
@@ -243,6 +249,9 @@ def run(ctx):
     r = impl_call(lambda: list(pt.ipauli(3, 0, 4)))
     if r != 'ERR AssertionError':
         ctx.violation('malformed-ipauli', 'ipauli accepts max_weight > n', {'got': str(r)})
+
+    # ---- 7. usage patterns: iterator consumption and call histories (own model batches) -----
+    c09_extra.run(ctx, pt)
 
     # ---- correspondence with the extracted model ------------------------------------------
     out = ctx.model('c09', req)
